@@ -14,7 +14,7 @@ RULE = ("(a) 1-3 token/character/line mutations (delete, duplicate, swap, replac
         "non-trivial = the mutated text differs from the original and is >= 3 lines")
 ASSUMPTIONS = ["the leaf classes' own stray exceptions and the wall-clock bound live outside the model: the block-level theorem "
                "outcome_classified proves the plumbing, this stream is the search"]
-TIE_MODULES = ["FparserModel.Block", "FparserModel.IoStmt", "FparserModel.IoStmtPins", "FparserModel.Generated.IoStmtTables"]
+TIE_MODULES = ["FparserModel.Block", "FparserModel.IoStmt", "FparserModel.IoStmtPins", "FparserModel.Generated.IoStmtTables", "FparserModel.Rest", "FparserModel.RestPins", "FparserModel.Generated.RestTables"]
 
 PUNCT = list("()[],:;=+-*/%&!'\".<>_$#@?\\~^{}|`") + ["::", "=>", "**", "//", "(/", "/)", "==", "/=", ".and.", ".x.", "1.0e", "'", '"']
 KW = ["end", "if", "then", "else", "do", "program", "function", "subroutine", "module", "contains", "type", "select", "case",
@@ -292,6 +292,7 @@ def cases(tier, seed):
 
 
 def run(tier, rep, st):
+    util.sub_cosim(rep, tier, "cosim_rest", "Fp.Rest", 60, 600)
     util.sub_cosim(rep, tier, "cosim_iostmt", "Fp.IoStmt", 50, 600)
     results = engine.run_cases(__name__, cases(tier, rep.seed), rep)
     rep.evaluations = sum(r.get("evals", 0) for r in results)
